@@ -34,7 +34,9 @@ enum FaultKind
     F_BACKEDGE = 7, // file/a identify the import whose chain end is turned into an import of it
     F_UNITSCYCLE = 8, // a = pick
     F_ALL11 = 9, // every imported file becomes a CellML 1.1 document (a model library in the old format); a = which of them carry benign noise
-    F_RESTORE = 10
+    F_RESTORE = 10,
+    F_ENTITYFLAW = 11, // an entity other files import gets a parser error of its own (a = pick, b = flavour: element / first variable)
+    F_ENTITYGONE = 12 // an entity other files import is renamed in the file that defines it (a = pick)
 };
 
 struct Fault
@@ -56,6 +58,8 @@ const char *faultName(int k)
     case F_UNITSCYCLE: return "unitscycle";
     case F_ALL11: return "all-cellml11";
     case F_RESTORE: return "restore";
+    case F_ENTITYFLAW: return "entityflaw";
+    case F_ENTITYGONE: return "entitygone";
     }
     return "?";
 }
@@ -113,6 +117,10 @@ std::vector<Fault> singleFaults(const Graph &g)
         }
         out.push_back({F_UNITSCYCLE, long(f), 0, 0});
         out.push_back({F_UNITSCYCLE, long(f), 1, 0});
+        out.push_back({F_ENTITYFLAW, long(f), 0, 0});
+        out.push_back({F_ENTITYFLAW, long(f), 1, 1});
+        out.push_back({F_ENTITYGONE, long(f), 0, 0});
+        out.push_back({F_ENTITYGONE, long(f), 1, 0});
     }
     out.push_back({F_ALL11, 0, 0, 0});
     out.push_back({F_ALL11, 0, 1, 0});
@@ -150,7 +158,7 @@ Graph graphFor(long graphSeed, long maxFiles, long avoid)
     return generateGraph(rng, gp);
 }
 
-const long SWEEP_SLOTS = 160;
+const long SWEEP_SLOTS = 200;
 
 Plan generate(Rng &rng, const Opts &opts, uint64_t runIndex)
 {
@@ -177,8 +185,20 @@ Plan generate(Rng &rng, const Opts &opts, uint64_t runIndex)
         p.cfg["sweep"] = 1;
         Graph g = graphFor(graphSeed, maxFiles, avoid);
         auto faults = singleFaults(g);
-        long strict = opts.f("enum", 0) != 0 ? (graphNo / enumeratedGraphCount()) % 2 : long(gr.below(2));
-        p.steps.push_back(mk(0, "IMPORTER", {strict}));
+        long strict = long(gr.below(2));
+        // keep = 1: the client keeps working on the model object it parsed at the start (it is not parsed again after
+        // the fault or the repair) and keeps every importer it has used alive
+        long keep = long(gr.below(2));
+        if (opts.f("enum", 0) != 0) {
+            // (template, strict, keep) is a bijection of graphNo over 4 x enumeratedGraphCount() graphs, and every
+            // stretch of graph numbers mixes all four (strict, keep) combinations
+            long cycle = graphNo / enumeratedGraphCount();
+            strict = (graphNo + cycle) % 2;
+            keep = (graphNo / 2 + cycle / 2) % 2;
+        }
+        keep = opts.f("keep", keep);
+        p.cfg["keep"] = keep;
+        p.steps.push_back(mk(0, "IMPORTER", {strict, 0}));
         p.steps.push_back(mk(0, "ROOT", {0}));
         p.steps.push_back(mk(0, "RESOLVE"));
         p.steps.push_back(mk(0, "FLATTEN"));
@@ -186,14 +206,21 @@ Plan generate(Rng &rng, const Opts &opts, uint64_t runIndex)
             const Fault &f = faults[size_t(slot)];
             long how = slot % 3; // how the importer is refreshed before the faulty resolution
             p.steps.push_back(mk(9, "FS", {f.kind, f.file, f.a, f.b}));
-            p.steps.push_back(how == 0 ? mk(0, "IMPORTER", {strict}) : (how == 1 ? mk(0, "CLEAR") : mk(0, "NOP")));
-            p.steps.push_back(mk(0, "ROOT", {0}));
+            p.steps.push_back(how == 0 ? mk(0, "IMPORTER", {strict, keep}) : (how == 1 ? mk(0, "CLEAR") : mk(0, "NOP")));
+            if (keep == 0) {
+                p.steps.push_back(mk(0, "ROOT", {0}));
+            }
             p.steps.push_back(mk(0, "RESOLVE"));
             p.steps.push_back(mk(0, "FLATTEN"));
             p.steps.push_back(mk(9, "FS", {F_RESTORE, -1, 0, 0}));
             long repair = (slot / 3) % 3; // fresh importer, removeAllModels, or the same importer untouched
-            p.steps.push_back(repair == 0 ? mk(0, "IMPORTER", {strict}) : (repair == 1 ? mk(0, "CLEAR") : mk(0, "NOP")));
-            p.steps.push_back(mk(0, "ROOT", {0}));
+            p.steps.push_back(repair == 0 ? mk(0, "IMPORTER", {strict, keep}) : (repair == 1 ? mk(0, "CLEAR") : mk(0, "NOP")));
+            if (keep == 0) {
+                p.steps.push_back(mk(0, "ROOT", {0}));
+            }
+            p.steps.push_back(mk(0, "RESOLVE"));
+            p.steps.push_back(mk(0, "FLATTEN"));
+            // and once more, at once: the answer of a resolution does not depend on the one before it
             p.steps.push_back(mk(0, "RESOLVE"));
             p.steps.push_back(mk(0, "FLATTEN"));
         }
@@ -211,7 +238,7 @@ Plan generate(Rng &rng, const Opts &opts, uint64_t runIndex)
     // swarm: enabled fault kinds for this run
     std::vector<Fault> enabled;
     std::set<int> kinds;
-    for (int k : {F_ABSENT, F_UNREADABLE, F_TRUNCATE, F_READFAIL, F_REPLACE, F_REFBREAK, F_BACKEDGE, F_UNITSCYCLE, F_ALL11}) {
+    for (int k : {F_ABSENT, F_UNREADABLE, F_TRUNCATE, F_READFAIL, F_REPLACE, F_REFBREAK, F_BACKEDGE, F_UNITSCYCLE, F_ALL11, F_ENTITYFLAW, F_ENTITYGONE}) {
         if (rng.chance(1, 2)) {
             kinds.insert(k);
         }
@@ -243,7 +270,7 @@ Plan generate(Rng &rng, const Opts &opts, uint64_t runIndex)
         } else if (r < 52) {
             p.steps.push_back(mk(task, "CLEAR"));
         } else if (r < 58) {
-            p.steps.push_back(mk(task, "IMPORTER", {long(rng.below(2))}));
+            p.steps.push_back(mk(task, "IMPORTER", {long(rng.below(2)), long(rng.below(2))}));
         } else if (r < 66) {
             p.steps.push_back(mk(task, "ROOT", {task == 0 ? 0 : long(rng.below(g.files.size()))}));
         } else if (r < 82 && !enabled.empty()) {
@@ -268,10 +295,15 @@ Plan generate(Rng &rng, const Opts &opts, uint64_t runIndex)
     }
     // end with a repair and a fresh resolution
     p.steps.push_back(mk(9, "FS", {F_RESTORE, -1, 0, 0}));
-    p.steps.push_back(rng.chance(1, 2) ? mk(0, "IMPORTER", {long(rng.below(2))}) : mk(0, "CLEAR"));
-    p.steps.push_back(mk(0, "ROOT", {0}));
+    p.steps.push_back(rng.chance(1, 2) ? mk(0, "IMPORTER", {long(rng.below(2)), long(rng.below(2))}) : mk(0, "CLEAR"));
+    if (rng.chance(2, 3)) {
+        p.steps.push_back(mk(0, "ROOT", {0}));
+    }
     p.steps.push_back(mk(0, "RESOLVE"));
     p.steps.push_back(mk(0, "FLATTEN"));
+    if (rng.chance(1, 2)) {
+        p.steps.push_back(mk(0, "RESOLVE"));
+    }
     return p;
 }
 
@@ -378,7 +410,7 @@ struct World
             return;
         }
         size_t file = size_t(((f.file % long(n)) + long(n)) % long(n));
-        if (((f.kind >= F_ABSENT && f.kind <= F_REPLACE) || f.kind == F_UNITSCYCLE) && file == 0 && n > 1) {
+        if (((f.kind >= F_ABSENT && f.kind <= F_REPLACE) || f.kind == F_UNITSCYCLE || f.kind == F_ENTITYFLAW || f.kind == F_ENTITYGONE) && file == 0 && n > 1) {
             file = 1; // the root file itself is the client's input, not an import
         }
         const std::string path = pristine.files[file].path;
@@ -545,6 +577,84 @@ struct World
             spec.hasLocalUnitsCycle = true;
             tag += a == b ? "-self" : "-pair";
             v = makeVersion(spec);
+            break;
+        }
+        case F_ENTITYFLAW:
+        case F_ENTITYGONE: {
+            // local entities of this file, those that some import somewhere refers to first
+            struct Cand
+            {
+                bool isUnits;
+                size_t index;
+            };
+            std::vector<Cand> referenced, others;
+            auto isReferenced = [&](bool isUnits, const std::string &name) {
+                for (size_t g = 0; g < n; ++g) {
+                    FileSpec other = specOf(g);
+                    for (auto &u : other.units) {
+                        if (isUnits && u.imported && u.targetFile == int(file) && u.ref == name) {
+                            return true;
+                        }
+                    }
+                    for (auto &c : other.comps) {
+                        if (!isUnits && c.imported && c.targetFile == int(file) && c.ref == name) {
+                            return true;
+                        }
+                    }
+                }
+                return false;
+            };
+            auto usedLocally = [&](const std::string &unitsName) {
+                for (auto &u : spec.units) {
+                    if (std::find(u.children.begin(), u.children.end(), unitsName) != u.children.end()) {
+                        return true;
+                    }
+                }
+                for (auto &c : spec.comps) {
+                    for (auto &var : c.vars) {
+                        if (var.units == unitsName) {
+                            return true;
+                        }
+                    }
+                    if (std::find(c.cn.begin(), c.cn.end(), unitsName) != c.cn.end()) {
+                        return true;
+                    }
+                }
+                return false;
+            };
+            for (size_t i = 0; i < spec.units.size(); ++i) {
+                if (!spec.units[i].imported && spec.units[i].flaw == 0 && (f.kind == F_ENTITYFLAW || !usedLocally(spec.units[i].name))) {
+                    (isReferenced(true, spec.units[i].name) ? referenced : others).push_back({true, i});
+                }
+            }
+            for (size_t i = 0; i < spec.comps.size(); ++i) {
+                if (!spec.comps[i].imported && spec.comps[i].flaw == 0) {
+                    (isReferenced(false, spec.comps[i].name) ? referenced : others).push_back({false, i});
+                }
+            }
+            auto &pool = referenced.empty() ? others : referenced;
+            if (pool.empty()) {
+                return;
+            }
+            const Cand &cand = pool[size_t(f.a < 0 ? -f.a : f.a) % pool.size()];
+            std::string name = cand.isUnits ? spec.units[cand.index].name : spec.comps[cand.index].name;
+            if (f.kind == F_ENTITYFLAW) {
+                if (cand.isUnits) {
+                    spec.units[cand.index].flaw = 1;
+                } else {
+                    spec.comps[cand.index].flaw = (f.b % 2) != 0 ? 2 : 1;
+                }
+                tag += std::string(cand.isUnits ? "-units" : "-component") + (referenced.empty() ? "-unreferenced" : "");
+            } else {
+                (cand.isUnits ? spec.units[cand.index].name : spec.comps[cand.index].name) = name + "_renamed";
+                tag += std::string(cand.isUnits ? "-units" : "-component") + (referenced.empty() ? "-unreferenced" : "");
+            }
+            v = makeVersion(spec);
+            if (f.kind == F_ENTITYFLAW) {
+                auto probe = Parser::create(false);
+                probe->parseModel(v.text);
+                ctx.count("probe_flawed_entity_document_parser_errors", long(probe->errorCount()));
+            }
             break;
         }
         default:
@@ -720,6 +830,14 @@ void execute(const Plan &plan, Ctx &ctx)
         }
     }
     std::vector<Client> clients(2);
+    std::vector<std::shared_ptr<ImporterState>> retired;
+    if (plan.c("sweep", 0) != 0) {
+        size_t nFaults = singleFaults(w.pristine).size();
+        if (long(nFaults) > SWEEP_SLOTS) {
+            ctx.violate("C07", "harness-sweep-slots-too-few", "", "the graph has " + str(nFaults) + " single faults but the sweep enumerates only " + str(SWEEP_SLOTS));
+            return;
+        }
+    }
     std::vector<Fault> armed; // applied at the n-th open of the next RESOLVE (kind < 0: unused)
     std::vector<long> armedAt;
     checkRuleTable(ctx);
@@ -749,6 +867,11 @@ void execute(const Plan &plan, Ctx &ctx)
         }
         if (s.op == "IMPORTER") {
             ctx.begin(stepNo, "IMPORTER", "");
+            if (s.arg(1) != 0 && c.imp != nullptr) {
+                // the client keeps its previous importer (and so the models its root is still linked to) alive
+                retired.push_back(c.imp);
+                ctx.count("previous_importer_kept_alive");
+            }
             c.imp = std::make_shared<ImporterState>();
             c.imp->strict = s.arg(0) % 2 != 0;
             c.imp->importer = Importer::create(c.imp->strict);
@@ -775,7 +898,16 @@ void execute(const Plan &plan, Ctx &ctx)
             const FileVersion *v = w.vfs.at(w.pristine.files[file].path);
             c.root = nullptr;
             c.haveVerdict = false;
-            if (v == nullptr || !v->opens() || !v->wellFormed() || v->load != Load::OK || v->spec.hasLocalUnitsCycle) {
+            bool flawed = false;
+            if (v != nullptr) {
+                for (auto &u : v->spec.units) {
+                    flawed = flawed || u.flaw != 0;
+                }
+                for (auto &k : v->spec.comps) {
+                    flawed = flawed || k.flaw != 0;
+                }
+            }
+            if (v == nullptr || !v->opens() || !v->wellFormed() || v->load != Load::OK || v->spec.hasLocalUnitsCycle || flawed) {
                 ctx.ev("ROOT unavailable");
                 continue;
             }
